@@ -127,7 +127,7 @@ def generate_system_chemostats(network, space, chstt_dict={}) :
 
     for s in network.species : 
         if s.label in list(chstt_dict) :
-            if not is_array(chstt_dict[s.label]) : 
+            if not isarray(chstt_dict[s.label]) : 
                 raise TypeError("chstt_dict's values must be arrays")
             if len(chstt_dict[s.label]) != space.size() : 
                 raise ValueError("chstt_dict's array size must match the system size.")            
